@@ -85,6 +85,16 @@ func c19Inputs(seed uint64, p c19Params, src string) []toolInput {
 		in.Flags = drawFlags(r, in.Rules, true)
 		ins = append(ins, in)
 	}
+	// library-style double builds of a third of the inputs so far
+	for i, n := 0, len(ins); i < n; i++ {
+		if r.chance(1, 3) && !contains(ins[i].Flags, "-x") {
+			in := ins[i]
+			in.Name = "rebuild(" + in.Name + ")"
+			in.Class = "rebuild"
+			in.Rebuild = true
+			ins = append(ins, in)
+		}
+	}
 	base := len(ins)
 	for i := 0; i < p.mut; i++ {
 		src := ins[r.intn(base)]
